@@ -111,6 +111,15 @@ def obligations(tier, seed):
                 obs.append(qh.query_obl('C01', name, q, a, b, krange=2, timeout=150, check_sources=True, mutate_output=True))
             else:
                 obs.append(qh.query_obl('C01', name, q, SHAPES_QUICK[2] if name.startswith('except[dup') else (RAGGED_S if ('star' in name and 'un' in name) else SHAPES_QUICK[(i + seed) % 2]), timeout=150, check_sources=True, mutate_output=True))
+        # seed-rotated sample of the thorough family (cheap shapes): successive quick runs sweep through it
+        cheap = [['so', 's'], ['s', 'sos', ''], ['os', 'ss'], ['sss'], ['s', 's', 'so']]
+        for i, name in enumerate(qh.rotating([n for n in THOROUGH if n not in QUICK], seed, 12)):
+            q = CASES[name]
+            if q.join is not None:
+                a, b = JSHAPES_ALL[(i + seed) % 3]
+                obs.append(qh.query_obl('C01', name, q, a, b, krange=2, timeout=150, check_sources=True, mutate_output=True, tag='~rot'))
+            else:
+                obs.append(qh.query_obl('C01', name, q, cheap[(i + seed) % len(cheap)], timeout=150, check_sources=True, mutate_output=True, tag='~rot'))
     else:
         for i, name in enumerate(THOROUGH):
             q = CASES[name]
